@@ -5,6 +5,7 @@ import sys
 sys.path.insert(0, os.path.join(os.path.dirname(os.path.abspath(__file__)), "..", "lib"))
 import vf
 import lanes
+import prog
 
 ITYPES = [("i8", 1, True), ("u8", 1, False), ("i16", 2, True), ("u16", 2, False),
           ("i32", 4, True), ("u32", 4, False), ("i64", 8, True), ("u64", 8, False)]
@@ -99,6 +100,10 @@ def body(ctx):
     events, plan = lanes.record(ctx, "int", plan, "c01")
     ctx.log("events: %d" % len(events))
     lanes.validate(ctx, "T_Int.tla", events, "c01", plan_lines=plan, matcher=known_matcher)
+
+    # straight-line programs over live batch variables (spec/Prog.tla): every instruction reads what earlier instructions left in the
+    # registers; the trace specification carries the register file itself and binds only the result of each step
+    prog.run(ctx, "c01", prog.ITYPES, ctx.q(24, 400), ctx.q(16, 40))
     return dict(exhaustive=False,
                 rule="operand rows from Lattice(T)^2 + seeded random + near-boundary pairs (8-bit: all 65536 pairs in the thorough tier), "
                      "each row executed on all 22 architectures + scalar overloads, every lane judged by LaneInt.IntRel in TLC; "
